@@ -605,6 +605,17 @@ def install(reg):
 
     M[dir] = m_dir
 
+    _len = M[len]
+
+    def m_len(interp, x):
+        """len() of a 0-d array is a TypeError path, not an engine error"""
+        try:
+            return _len(interp, x)
+        except V.RaiseSigLazy as e:
+            raise RaiseSig(e.exc)
+
+    M[len] = m_len
+
     def c_dict(interp, *a, **kw):
         """dict(pairs): keys must be concrete (hashable python values); values may be symbolic."""
         if a:
